@@ -3,7 +3,7 @@
    Standard library only; no axioms. *)
 From Coq Require Import List String ZArith Bool Arith Permutation Lia.
 Import ListNotations.
-Require Import MV.Spec.Rel MV.Spec.RelNary MV.Proofs.RelLemmas.
+Require Import MV.Spec.Rel MV.Proofs.RelLemmas MV.Proofs.RelAssocP MV.Spec.RelNary.
 Open Scope string_scope.
 Open Scope list_scope.
 
@@ -204,4 +204,301 @@ Proof.
       * apply matches_ext; intros; [apply Hx | apply Hy].
       * intros _ c. rewrite !get_row_union. now rewrite Hc, Hx, Hy.
   - apply perm_bag_eq. apply inner_rows_perm; now apply Permutation_sym.
+Qed.
+
+(* ==================================================================================================== *)
+(* 4. tuples: lookup by table index, cartesian products, link satisfaction *)
+
+Lemma nmem_in : forall i l, nmem i l = true <-> In i l.
+Proof.
+  unfold nmem. intros i l. rewrite existsb_exists. split.
+  - intros [x [Hx E]]. apply Nat.eqb_eq in E. now subst.
+  - intro H. exists i. split; auto. apply Nat.eqb_refl.
+Qed.
+Lemma nmem_false : forall i l, nmem i l = false <-> ~ In i l.
+Proof. intros i l. rewrite <- nmem_in. destruct (nmem i l); split; congruence. Qed.
+Lemma nmem_app : forall i a b, nmem i (a ++ b) = nmem i a || nmem i b.
+Proof. intros. unfold nmem. apply existsb_app. Qed.
+
+Lemma tget_app : forall i a b, tget i (a ++ b) = match tget i a with Some r => Some r | None => tget i b end.
+Proof. induction a as [|[j r] a IH]; simpl; intros b; auto. destruct (Nat.eqb j i); auto. Qed.
+
+Lemma tget_none : forall i t, tget i t = None <-> nmem i (map fst t) = false.
+Proof.
+  induction t as [|[j r] t IH]; simpl; [tauto|].
+  rewrite (Nat.eqb_sym i j). destruct (Nat.eqb j i); simpl; [split; discriminate | exact IH].
+Qed.
+
+Lemma tget_some_in : forall i r t, tget i t = Some r -> In (i, r) t.
+Proof.
+  induction t as [|[j r'] t IH]; simpl; intros H; [discriminate|].
+  destruct (Nat.eqb j i) eqn:E.
+  - apply Nat.eqb_eq in E. inversion H; subst. now left.
+  - right. auto.
+Qed.
+
+Lemma tget_in : forall i r t, NoDup (map fst t) -> In (i, r) t -> tget i t = Some r.
+Proof.
+  induction t as [|[j r'] t IH]; simpl; intros ND H; [tauto|].
+  inversion ND as [|? ? Hn ND']; subst.
+  destruct H as [H|H].
+  - inversion H; subst. now rewrite Nat.eqb_refl.
+  - destruct (Nat.eqb j i) eqn:E; auto.
+    apply Nat.eqb_eq in E. subst. exfalso. apply Hn. apply in_map_iff. exists (i, r). auto.
+Qed.
+
+Lemma tget_perm : forall i t t', NoDup (map fst t) -> Permutation t t' -> tget i t = tget i t'.
+Proof.
+  intros i t t' ND P.
+  assert (ND' : NoDup (map fst t')) by (eapply Permutation_NoDup; [apply Permutation_map; exact P | exact ND]).
+  destruct (tget i t) as [r|] eqn:E.
+  - symmetry. apply tget_in; auto. eapply Permutation_in; [exact P|]. now apply tget_some_in.
+  - symmetry. apply tget_none. apply tget_none in E. apply nmem_false. apply nmem_false in E.
+    intro H. apply E. eapply Permutation_in; [apply Permutation_sym; apply Permutation_map; exact P | exact H].
+Qed.
+
+Lemma map_flat_map_l : forall (X Y Z : Type) (f : Y -> Z) (g : X -> list Y) l,
+  map f (flat_map g l) = flat_map (fun x => map f (g x)) l.
+Proof. induction l as [|x t IH]; simpl; auto. now rewrite map_app, IH. Qed.
+
+Section Prod.
+  Variable ts : list table.
+
+  Lemma prod_keys : forall S t, In t (prod ts S) -> map fst t = S.
+  Proof.
+    induction S as [|i S IH]; simpl; intros t H.
+    - destruct H as [<-|[]]. reflexivity.
+    - apply in_flat_map in H. destruct H as [r [_ H]]. apply in_map_iff in H. destruct H as [t' [<- H]].
+      simpl. f_equal. auto.
+  Qed.
+
+  Lemma prod_rows : forall S t i r, In t (prod ts S) -> In (i, r) t -> In r (nth i ts []).
+  Proof.
+    induction S as [|j S IH]; simpl; intros t i r H Hr.
+    - destruct H as [<-|[]]. destruct Hr.
+    - apply in_flat_map in H. destruct H as [r' [Hr' H]]. apply in_map_iff in H. destruct H as [t' [<- H]].
+      destruct Hr as [Hr|Hr]; [inversion Hr; now subst | eauto].
+  Qed.
+
+  Lemma prod_app : forall Sa Sb,
+    prod ts (Sa ++ Sb) = flat_map (fun ta => map (app ta) (prod ts Sb)) (prod ts Sa).
+  Proof.
+    induction Sa as [|i Sa IH]; intros Sb; simpl.
+    - rewrite app_nil_r. symmetry. apply map_id.
+    - rewrite IH. rewrite flat_map_flat_map. apply flat_map_ext. intro r.
+      rewrite map_flat_map_l, flat_map_map_l. apply flat_map_ext. intro ta. now rewrite map_map.
+  Qed.
+
+  Lemma prod_app_in : forall Sa Sb t,
+    In t (prod ts (Sa ++ Sb)) <-> exists ta tb, In ta (prod ts Sa) /\ In tb (prod ts Sb) /\ t = ta ++ tb.
+  Proof.
+    intros. rewrite prod_app, in_flat_map. split.
+    - intros [ta [Ha H]]. apply in_map_iff in H. destruct H as [tb [<- Hb]]. eauto.
+    - intros [ta [tb [Ha [Hb ->]]]]. exists ta. split; auto. apply in_map_iff. eauto.
+  Qed.
+End Prod.
+
+Lemma link_sat_flip : forall l t, link_sat (flip_link l) t = link_sat l t.
+Proof.
+  intros [[[[jt a] b] lk] rk] t. simpl. destruct (tget a t), (tget b t); auto. apply matches_swap.
+Qed.
+Lemma link_sat_orient : forall l f t, link_sat (orient l f) t = link_sat l t.
+Proof. intros l [|] t; simpl; auto. apply link_sat_flip. Qed.
+
+Lemma link_sat_absent_l : forall jt a b lk rk t, nmem a (map fst t) = false -> link_sat (jt, a, b, lk, rk) t = true.
+Proof. intros. simpl. apply tget_none in H. now rewrite H. Qed.
+Lemma link_sat_absent_r : forall jt a b lk rk t, nmem b (map fst t) = false -> link_sat (jt, a, b, lk, rk) t = true.
+Proof. intros. simpl. apply tget_none in H. rewrite H. now destruct (tget a t). Qed.
+
+Lemma forallb_andb : forall (A : Type) (p q : A -> bool) l,
+  forallb (fun x => p x && q x) l = forallb p l && forallb q l.
+Proof.
+  induction l as [|x t IH]; simpl; auto. rewrite IH.
+  destruct (p x), (q x), (forallb p t), (forallb q t); reflexivity.
+Qed.
+
+Lemma forallb_ext_in_l : forall (A : Type) (p q : A -> bool) l,
+  (forall x, In x l -> p x = q x) -> forallb p l = forallb q l.
+Proof.
+  induction l as [|x t IH]; simpl; intros H; auto. rewrite (H x (or_introl eq_refl)), IH; auto.
+Qed.
+
+(* no link of E leaves the key set of ta or of tb, and the key sets are disjoint *)
+Lemma sat_app_split : forall E ta tb,
+  (forall x, nmem x (map fst ta) = true -> nmem x (map fst tb) = false) ->
+  (forall jt a b lk rk, In (jt, a, b, lk, rk) E ->
+     nmem a (map fst ta) = nmem b (map fst ta) /\ nmem a (map fst tb) = nmem b (map fst tb)) ->
+  sat E (ta ++ tb) = sat E ta && sat E tb.
+Proof.
+  intros E ta tb D H. unfold sat. rewrite <- forallb_andb. apply forallb_ext_in_l.
+  intros [[[[jt a] b] lk] rk] Hl. destruct (H _ _ _ _ _ Hl) as [Ha Hb].
+  destruct (nmem a (map fst ta)) eqn:Ea.
+  - assert (Eb : nmem b (map fst ta) = true) by congruence.
+    rewrite (link_sat_absent_l jt a b lk rk tb (D a Ea)), andb_true_r.
+    simpl. rewrite !tget_app.
+    destruct (tget a ta) eqn:Ta; [|apply tget_none in Ta; congruence].
+    destruct (tget b ta) eqn:Tb; [|apply tget_none in Tb; congruence]. reflexivity.
+  - assert (Eb : nmem b (map fst ta) = false) by congruence.
+    rewrite (link_sat_absent_l jt a b lk rk ta Ea). simpl. rewrite !tget_app.
+    apply tget_none in Ea. apply tget_none in Eb. now rewrite Ea, Eb.
+Qed.
+
+Lemma forallb_perm : forall (A : Type) (p : A -> bool) l l', Permutation l l' -> forallb p l = forallb p l'.
+Proof.
+  induction 1; simpl; auto.
+  - now rewrite IHPermutation.
+  - destruct (p x), (p y); reflexivity.
+  - congruence.
+Qed.
+
+(* ==================================================================================================== *)
+(* 5. the union row of a tuple *)
+
+Lemma lookup_urow_app : forall c ta tb,
+  lookup c (urow (ta ++ tb)) = match lookup c (urow ta) with Some v => Some v | None => lookup c (urow tb) end.
+Proof.
+  induction ta as [|[i r] ta IH]; intros tb; simpl; auto.
+  rewrite !lookup_row_union, IH. destruct (lookup c r); auto.
+Qed.
+
+Lemma urow_app : forall ta tb, rsame (urow (ta ++ tb)) (row_union (urow ta) (urow tb)).
+Proof. intros ta tb c. now rewrite lookup_urow_app, lookup_row_union. Qed.
+
+Section Coh.
+  Variable css : list (list col).
+
+  (* every row binds exactly the schema of its table *)
+  Definition wf_tuple (t : tuple) : Prop := forall i r, In (i, r) t -> row_cols r = schema css i.
+  (* rows of the tuple agree on the column names they share *)
+  Definition coh (t : tuple) : Prop := forall i j ri rj c,
+    In (i, ri) t -> In (j, rj) t -> In c (schema css i) -> In c (schema css j) -> get c ri = get c rj.
+
+  Lemma has_col_urow : forall c t, wf_tuple t ->
+    has_col c (urow t) = existsb (fun ir => mem c (schema css (fst ir))) t.
+  Proof.
+    induction t as [|[i r] t IH]; intros W; simpl; auto.
+    rewrite has_col_row_union, IH.
+    - f_equal. unfold has_col. now rewrite (W i r (or_introl eq_refl)).
+    - intros j r' H. apply W. now right.
+  Qed.
+
+  Lemma get_urow_coh : forall c t i r, wf_tuple t -> coh t -> In (i, r) t -> In c (schema css i) ->
+    get c (urow t) = get c r.
+  Proof.
+    induction t as [|[j rj] t IH]; intros i r W C Hin Hc; [destruct Hin|].
+    simpl. rewrite get_row_union.
+    destruct (has_col c rj) eqn:Hj.
+    - apply (C j i rj r c); simpl; auto.
+      unfold has_col in Hj. rewrite (W j rj (or_introl eq_refl)) in Hj. now apply mem_in.
+    - destruct Hin as [Hin|Hin].
+      + inversion Hin; subst. unfold has_col in Hj. rewrite (W i r (or_introl eq_refl)) in Hj.
+        apply mem_false in Hj. contradiction.
+      + apply (IH i r); auto.
+        * intros a b H. apply W. now right.
+        * intros a b ra rb x Ha Hb. apply C; now right.
+  Qed.
+
+  Lemma urow_perm : forall t t', wf_tuple t -> coh t -> Permutation t t' -> row_equiv (urow t) (urow t').
+  Proof.
+    intros t t' W C P c.
+    assert (W' : wf_tuple t') by (intros i r H; apply W; eapply Permutation_in; [apply Permutation_sym; exact P | exact H]).
+    assert (C' : coh t').
+    { intros i j ri rj x Hi Hj. apply C; (eapply Permutation_in; [apply Permutation_sym; exact P|]; assumption). }
+    destruct (existsb (fun ir => mem c (schema css (fst ir))) t) eqn:E.
+    - apply existsb_exists in E. destruct E as [[i r] [Hin Hm]]. simpl in Hm. apply mem_in in Hm.
+      rewrite (get_urow_coh c t i r), (get_urow_coh c t' i r); auto. eapply Permutation_in; eauto.
+    - rewrite (get_no_col c (urow t)) by (rewrite has_col_urow; auto).
+      rewrite get_no_col; auto. rewrite has_col_urow; auto.
+      destruct (existsb (fun ir => mem c (schema css (fst ir))) t') eqn:E'; auto.
+      apply existsb_exists in E'. destruct E' as [x [Hin Hm]].
+      assert (existsb (fun ir => mem c (schema css (fst ir))) t = true); [|congruence].
+      apply existsb_exists. exists x. split; auto. eapply Permutation_in; [apply Permutation_sym; exact P | exact Hin].
+  Qed.
+End Coh.
+
+(* ==================================================================================================== *)
+(* 6. products over permuted index lists *)
+
+Definition TP (l l' : list tuple) : Prop :=
+  exists l'', Permutation l l'' /\ Forall2 (@Permutation (nat * row)) l'' l'.
+
+Lemma Forall2_perm_commute : forall (A B : Type) (R : A -> B -> Prop) b c,
+  Permutation b c -> forall a, Forall2 R a b -> exists a', Permutation a a' /\ Forall2 R a' c.
+Proof.
+  induction 1; intros a F.
+  - inversion F; subst. exists []. auto.
+  - inversion F as [|xa ? a0 ? Hx F0]; subst. destruct (IHPermutation a0 F0) as [a' [P F']].
+    exists (xa :: a'). auto.
+  - inversion F as [|x1 ? a1 ? H1 F1]; subst. inversion F1 as [|x2 ? a2 ? H2 F2]; subst.
+    exists (x2 :: x1 :: a2). split; [apply perm_swap | auto].
+  - destruct (IHPermutation1 a F) as [a1 [P1 F1]]. destruct (IHPermutation2 a1 F1) as [a2 [P2 F2]].
+    exists a2. split; auto. eapply perm_trans; eauto.
+Qed.
+
+Lemma Forall2_refl_l : forall (A : Type) (R : A -> A -> Prop) l, (forall x, R x x) -> Forall2 R l l.
+Proof. induction l; constructor; auto. Qed.
+
+Lemma Forall2_trans_l : forall (A : Type) (R : A -> A -> Prop) a b c,
+  (forall x y z, R x y -> R y z -> R x z) -> Forall2 R a b -> Forall2 R b c -> Forall2 R a c.
+Proof.
+  intros A R a b c T F. revert c. induction F; intros c F'; inversion F'; subst; constructor; eauto.
+Qed.
+
+Lemma TP_refl : forall l, TP l l.
+Proof. intro l. exists l. split; auto. apply Forall2_refl_l. intro; apply Permutation_refl. Qed.
+
+Lemma TP_trans : forall a b c, TP a b -> TP b c -> TP a c.
+Proof.
+  intros a b c [a' [P1 F1]] [b' [P2 F2]].
+  destruct (Forall2_perm_commute _ _ _ _ _ P2 _ F1) as [a'' [P3 F3]].
+  exists a''. split; [eapply perm_trans; eauto|].
+  eapply Forall2_trans_l; [|exact F3|exact F2]. intros; eapply perm_trans; eauto.
+Qed.
+
+Lemma TP_app : forall a b c d, TP a b -> TP c d -> TP (a ++ c) (b ++ d).
+Proof.
+  intros a b c d [a' [P1 F1]] [c' [P2 F2]]. exists (a' ++ c'). split.
+  - now apply Permutation_app.
+  - now apply Forall2_app.
+Qed.
+
+Lemma TP_flat_map : forall (X : Type) (f g : X -> list tuple) l,
+  (forall x, In x l -> TP (f x) (g x)) -> TP (flat_map f l) (flat_map g l).
+Proof.
+  induction l as [|x t IH]; simpl; intros H; [apply TP_refl|].
+  apply TP_app; auto.
+Qed.
+
+Lemma TP_map_cons : forall x l l', TP l l' -> TP (map (cons x) l) (map (cons x) l').
+Proof.
+  intros x l l' [l'' [P F]]. exists (map (cons x) l''). split; [now apply Permutation_map|].
+  clear P. induction F; simpl; constructor; auto.
+Qed.
+
+Lemma Forall2_flat_map_same : forall (X Y : Type) (R : Y -> Y -> Prop) (f g : X -> list Y) l,
+  (forall x, Forall2 R (f x) (g x)) -> Forall2 R (flat_map f l) (flat_map g l).
+Proof. induction l; simpl; intros; [constructor | apply Forall2_app; auto]. Qed.
+
+Lemma Forall2_map_same : forall (X Y : Type) (R : Y -> Y -> Prop) (f g : X -> Y) l,
+  (forall x, R (f x) (g x)) -> Forall2 R (map f l) (map g l).
+Proof. induction l; simpl; intros; constructor; auto. Qed.
+
+Lemma prod_perm : forall ts S S', Permutation S S' -> TP (prod ts S) (prod ts S').
+Proof.
+  intros ts S S' P. induction P.
+  - apply TP_refl.
+  - simpl. apply TP_flat_map. intros r _. now apply TP_map_cons.
+  - simpl.
+    set (P0 := prod ts l).
+    exists (flat_map (fun rx => flat_map (fun ry => map (fun t => (y, ry) :: (x, rx) :: t) P0) (nth y ts [])) (nth x ts [])).
+    split.
+    + eapply perm_trans; [|apply flat_map_swap].
+      apply Permutation_refl'. apply flat_map_ext. intro ry.
+      rewrite map_flat_map_l. apply flat_map_ext. intro rx. now rewrite map_map.
+    + assert (E : flat_map (fun r => map (cons (x, r)) (flat_map (fun r0 => map (cons (y, r0)) P0) (nth y ts []))) (nth x ts [])
+                = flat_map (fun rx => flat_map (fun ry => map (fun t => (x, rx) :: (y, ry) :: t) P0) (nth y ts [])) (nth x ts [])).
+      { apply flat_map_ext. intro rx. rewrite map_flat_map_l. apply flat_map_ext. intro ry. now rewrite map_map. }
+      rewrite E. apply Forall2_flat_map_same. intro rx. apply Forall2_flat_map_same. intro ry.
+      apply Forall2_map_same. intro t. apply perm_swap.
+  - eapply TP_trans; eauto.
 Qed.
